@@ -180,6 +180,36 @@ REFCFG = [dict(valid_types="identity"), dict(valid_types=["SCO", "SDO", "SRO"]),
 NCFG = len(REFCFG)
 
 
+# malformed reference texts: whatever the type policy, only <type>--<uuid> may be accepted (and emitted)
+REF_MID = ["", "foo--", "identity--", "not a uuid--", "--", "-", "x", "--x--", " "]
+REF_TAIL = ["", "\n", " ", "--", "}"]
+NMID, NTAIL = len(REF_MID), len(REF_TAIL)
+
+
+def ref_text(t: int, cfg: int, mid: int, allow: bool) -> bool:
+    """
+    pre: 0 <= t < 4 and 0 <= cfg < NCFG and 0 <= mid < NMID
+    post: _
+    """
+    t, cfg, mid, allow = pick(t, 4), pick(cfg, NCFG), pick(mid, NMID), pickb(allow)
+    with Native():
+        ok = all(run_ref_text_case((0, 2, 5, 11)[t], cfg, mid, tail, v21, allow) for tail in range(NTAIL) for v21 in (False, True))
+    V.reached()
+    return ok
+
+
+def run_ref_text_case(t, cfg, mid, tail, v21, allow):
+    if mid == 0 and tail == 0:
+        return True                                   # the well-formed text: ref_prop's business
+    text = TYPES[t] + "--" + REF_MID[mid] + gen.UU + REF_TAIL[tail]
+    prop = P.ReferenceProperty(spec_version="2.1" if v21 else "2.0", **REFCFG[cfg])
+    try:
+        prop.clean(text, allow)
+    except (ValueError, STIXError):
+        return True
+    return False
+
+
 def ref_prop(t: int, cfg: int, allow: bool) -> bool:
     """
     pre: 0 <= t < NTYPES and 0 <= cfg < NCFG
